@@ -112,7 +112,7 @@ def charWs (c : Nat) : Bool :=
 
 /-- XID_Start / XID_Continue restricted to ASCII plus the non-ASCII code points the generator uses
     (the Unicode tables themselves are a parameter: the harness reads them from `unicode-ident`) -/
-def xidStartSample : List Nat := [0xAA, 0xB5, 0xBA, 0xC3, 0xE9, 0x3B1, 0x4E2D]
+def xidStartSample : List Nat := [0xAA, 0xB5, 0xBA, 0xC3, 0xE9, 0x3B1, 0x4E2D, 0x0E01]
 def xidContinueOnlySample : List Nat := [0xB7, 0x301, 0x0660]
 def charXidStart (c : Nat) : Bool := asciiAlpha c || xidStartSample.contains c
 def charXidContinue (c : Nat) : Bool := asciiAlnum c || c == 95 || xidStartSample.contains c || xidContinueOnlySample.contains c
